@@ -16,6 +16,7 @@ package main
 
 import (
 	"fmt"
+	"net/url"
 	"os"
 	"path/filepath"
 	"sort"
@@ -409,6 +410,8 @@ func body() {
 			time.Sleep(200 * time.Millisecond)
 		}
 	}
+	truncatePhase(c)
+
 	// ---- a coordinator that owns nothing: a data node that joins after all
 	// shard groups exist maps every shard of every statement remotely
 	if nd, err := c.AddData(); err != nil {
@@ -599,4 +602,90 @@ func firstDiff(a, b string) string {
 		}
 	}
 	return "?"
+}
+
+// truncatePhase: truncate-shards (a step of the rebalance workflow) only stops
+// new writes into the current shard groups; the points they already hold -
+// also those with timestamps after the truncation time - must stay readable
+// from every coordinator.
+func truncatePhase(c *cluster.Cluster) {
+	if r.Skip("truncate/after") && r.Skip("truncate/before") {
+		return
+	}
+	must(c, 0, "", "CREATE DATABASE trunc WITH REPLICATION 2 SHARD DURATION 1h")
+	if err := c.WaitMetaIndex(cluster.DefaultWait); err != nil {
+		broken(err.Error())
+	}
+	now := time.Now().UnixNano()
+	minute := int64(60 * 1e9)
+	var lp strings.Builder
+	var ts []int64
+	for k, off := range []int64{-50, -20, -5, 5, 12, 20, 35, 50, 70, 95} {
+		for h := 0; h < 4; h++ {
+			t := now + off*minute + int64(h)
+			fmt.Fprintf(&lp, "cpu,host=h%d i=%di %d\n", h, k, t)
+			ts = append(ts, t)
+		}
+	}
+	// idempotent load at level all; pooled connections to the node that was
+	// restarted earlier may still be stale on the first attempts
+	for attempt := 0; ; attempt++ {
+		st, b, err := c.Write(0, "trunc", "", "all", "ns", []byte(lp.String()))
+		if err == nil && st == 204 {
+			break
+		}
+		if attempt >= 20 {
+			r.Inconclusive(fmt.Sprintf("truncate phase: load failed: %d %s %v", st, b, err))
+			return
+		}
+		time.Sleep(500 * time.Millisecond)
+	}
+	type q struct {
+		text   string
+		expect string
+	}
+	var qs []q
+	for _, lo := range []int64{now - 60*minute, now + 3*minute, now + 30*minute, now + 65*minute} {
+		hi := now + 3*60*minute
+		n := 0
+		for _, t := range ts {
+			if t >= lo && t <= hi {
+				n++
+			}
+		}
+		qs = append(qs, q{fmt.Sprintf("SELECT count(i) FROM cpu WHERE time >= %d AND time <= %d", lo, hi), fmt.Sprintf("#cpu [time count]\n%d %d \n", lo, n)})
+	}
+	ask := func(phase string) {
+		for qi, x := range qs {
+			for node := range c.Datas {
+				caseID := "truncate/" + phase
+				r.Eval(1)
+				resp, err := c.Query(node, "trunc", x.text, nil)
+				if err != nil {
+					r.Inconclusive(caseID + ": " + err.Error())
+					continue
+				}
+				norm, _, qerr := cluster.Normalize(resp)
+				r.Count("queries_around_a_shard_group_truncation", 1)
+				if qerr != "" || norm != x.expect {
+					r.Violation("C05/truncated-group/"+phase+"-truncation/answer-differs-from-data", caseID,
+						fmt.Sprintf("%s from node %d %s truncate-shards, no fault: %s", x.text, node, phase, map[bool]string{true: "error " + qerr, false: "the answer differs from the points that were loaded: " + firstDiff(x.expect, norm)}[qerr != ""]),
+						map[string]interface{}{"statement": x.text, "expected": x.expect, "got": clip(norm), "error": qerr, "phase": phase})
+					return
+				}
+				r.Nontrivial(fmt.Sprintf("trunc|%s|q%d|n%d", phase, qi, node))
+			}
+		}
+	}
+	ask("before")
+	if err := c.MetaPostOnce("/truncate-shards", url.Values{"delay": {"1m"}}); err != nil {
+		r.Inconclusive("truncate-shards: " + err.Error())
+		return
+	}
+	c.WaitMetaCaughtUp(cluster.DefaultWait)
+	if err := c.WaitMetaIndex(cluster.DefaultWait); err != nil {
+		r.Inconclusive("after truncate-shards: " + err.Error())
+		return
+	}
+	ask("after")
 }
